@@ -559,9 +559,16 @@ def render_display(ctx, v):
         return [SInt(ord(c), "char") for c in ("true" if conc(v) else "false")]
     if isinstance(v, Agg) and v.ty == "Cow":
         return render_display(ctx, v.fields[0])
-    if isinstance(v, Agg):
-        # user Display impl?
-        raise Unsupported("Display of %r" % (v,))
+    if isinstance(v, Agg) and v.ty:
+        # a Display impl of the crate: run its MIR against a Formatter that collects the text
+        fn = ctx.program.resolve_call("<%s as Display>::fmt" % v.ty)
+        if fn is None:
+            raise Unsupported("Display of %r" % (v,))
+        f = Agg("Formatter", None, [StringBuf([])])
+        r = ctx.call(fn, [new_ref(v), new_ref(f, True)])
+        if not (isinstance(r, Agg) and r.variant == "Ok"):
+            raise Unsupported("Display impl of %s returned %r" % (v.ty, r))
+        return list(f.fields[0].chars)
     raise Unsupported("Display of %r" % (v,))
 
 
@@ -685,6 +692,10 @@ class Models:
         name = re.sub(r"\b(?:std|alloc)::slice::<impl \[", "core::slice::<impl [", name)
         return name.strip()
 
+    def has_model(self, fname):
+        name = self.normalize(fname)
+        return any(rx.match(name) for rx, _h in self.table)
+
     def call(self, ctx, fname, args):
         name = self.normalize(fname)
         for rx, h in self.table:
@@ -736,6 +747,11 @@ def register_all(M):
                     s.pop()
             return Str(s)
         return f
+    def str_matches_char(c, m, a):
+        ch = deref(a[1])
+        return SeqIt([Str([x]) for x in as_str(a[0]).chars if c.decide(char_eq(x, ch))])
+    M.add(r"core::str::<impl str>::matches::<char>", str_matches_char)
+    M.add(r"<(?:core::str::|std::str::)?Matches<.*> as Iterator>::count", lambda c, m, a: usize(len(deref(a[0]).items) if hasattr(deref(a[0]), "items") else sum(1 for _ in iter(lambda: deref(a[0]).next(c), None))))
     M.add(r"core::str::<impl str>::trim_start_matches::<char>", trim_matches_char("start"))
     M.add(r"core::str::<impl str>::trim_end_matches::<char>", trim_matches_char("end"))
     M.add(r"core::str::<impl str>::trim_matches::<char>", trim_matches_char("both"))
@@ -834,6 +850,20 @@ def register_all(M):
         return SeqIt(out)
     M.add(r"core::str::<impl str>::lines", str_lines)
 
+    def str_split_char(c, m, a):
+        s = as_str(a[0])
+        sep = deref(a[1])
+        out, cur = [], []
+        for ch in s.chars:
+            if c.decide(char_eq(ch, sep)):
+                out.append(Str(cur))
+                cur = []
+            else:
+                cur.append(ch)
+        out.append(Str(cur))
+        return SeqIt(out)
+    M.add(r"core::str::<impl str>::split::<char>", str_split_char)
+
     def str_replace(c, m, a):
         hay = list(as_str(a[0]).chars)
         pat = deref(a[1])
@@ -880,6 +910,8 @@ def register_all(M):
         return StringBuf(render_display(c, v))
     M.add(r"<(?:str|String|char|&str) as ToString>::to_string|<str as ToOwned>::to_owned|<String as From<&str>>::from|<&str as Into<String>>::into|<String as Clone>::clone|<String as From<&String>>::from|<String as ToOwned>::to_owned|<String as From<char>>::from", to_string)
     M.add(r"<(?:usize|u8|u16|u32|u64|i32|i64|isize) as ToString>::to_string", to_string)
+    # ToString of a crate type = its Display impl (blanket impl in std)
+    M.add(r"<(?:[a-z_0-9]+::)*[A-Z][A-Za-z0-9]*(?:<.*>)? as ToString>::to_string", lambda c, m, a: StringBuf(render_display(c, a[0])))
     M.add(r"<String as From<String>>::from|<String as Into<String>>::into|<&str as Into<&str>>::into", lambda c, m, a: a[0])
 
     # ---- char ----------------------------------------------------------------------------
@@ -1200,6 +1232,19 @@ def register_all(M):
         return o
     M.add(r"Option::<.*>::map::<.*>|Result::<.*>::map::<.*>", opt_map)
 
+    def opt_filter(c, m, a):
+        o = deref(a[0]) if isinstance(a[0], Ref) else a[0]
+        if isinstance(o, SymOpt):
+            # presence symbolic: on the branch where it is present the predicate sees the payload
+            if not c.decide(o.present.v if o.present.concrete else o.present.z()):
+                return none()
+            o = some(o.fields[0])
+        if o.variant != "Some":
+            return o
+        keep = c.call_callable(a[1], [new_ref(o.fields[0])])
+        return o if c.decide(keep) else none()
+    M.add(r"Option::<.*>::filter::<.*>", opt_filter)
+
     def res_map_err(c, m, a):
         o = a[0]
         if o.variant == "Err":
@@ -1392,6 +1437,15 @@ def register_all(M):
     def it_collect(c, m, a):
         target = m.group("t")
         xs = drain(c, it_of(a[0]))
+        if re.match(r"(?:std::result::)?Result<Vec<", target):
+            # first Err wins (short-circuit), otherwise Ok(vec of the payloads)
+            vals = []
+            for x in xs:
+                x = deref(x)
+                if x.variant == "Err":
+                    return err(x.fields[0])
+                vals.append(x.fields[0])
+            return ok(VecBuf(vals))
         if target.startswith("String"):
             out = []
             for x in xs:
@@ -1431,6 +1485,22 @@ def register_all(M):
     M.add(r"Arguments::new::<\d+, \d+>", lambda c, m, a: Agg("Arguments", "tmpl", [a[0], a[1]]))
     M.add(r"Arguments::from_str|Arguments::from_str_nonconst", lambda c, m, a: Agg("Arguments", "str", [a[0]]))
     M.add(r"format|std::fmt::format|alloc::fmt::format", lambda c, m, a: StringBuf(render_arguments(c, a[0])))
+
+    def formatter_write_fmt(c, m, a):
+        f = deref(a[0])
+        if not (isinstance(f, Agg) and f.ty == "Formatter"):
+            raise Unsupported("write_fmt on %r" % (f,))
+        f.fields[0].chars.extend(render_arguments(c, a[1]))
+        return ok(UNIT)
+    M.add(r"Formatter::write_fmt|Formatter::<>::write_fmt|std::fmt::Formatter::write_fmt|core::fmt::Formatter::write_fmt", formatter_write_fmt)
+
+    def formatter_write_str(c, m, a):
+        f = deref(a[0])
+        if not (isinstance(f, Agg) and f.ty == "Formatter"):
+            raise Unsupported("write_str on %r" % (f,))
+        f.fields[0].chars.extend(as_str(a[1]).chars)
+        return ok(UNIT)
+    M.add(r"Formatter::write_str|<Formatter as Write>::write_str|std::fmt::Formatter::write_str", formatter_write_str)
     M.add(r"must_use::<.*>", lambda c, m, a: a[0])
 
     # ---- misc ----------------------------------------------------------------------------------
@@ -1471,6 +1541,8 @@ def register_all(M):
         if x.concrete and y.concrete:
             return x if x.v <= y.v else y
         return mk_int(z3.If(z3.ULE(x.z(), y.z()), x.z(), y.z()), x.ty)
+    M.add(r"<(?:usize|u8|u16|u32|u64|i32|i64|isize) as (Add|Sub|Mul)<&(?:usize|u8|u16|u32|u64|i32|i64|isize)>>::(?:add|sub|mul)|<&(?:usize|u64|i32) as (Add|Sub|Mul)<&?(?:usize|u64|i32)>>::(?:add|sub|mul)",
+          lambda c, m, a: c.binop(m.group(1) or m.group(2), deref(a[0]), deref(a[1])))
     M.add(r"<usize as Ord>::max|std::cmp::max::<usize>|core::cmp::Ord::max", usize_max)
     M.add(r"<usize as Ord>::min|std::cmp::min::<usize>", usize_min)
 
@@ -1549,6 +1621,7 @@ def register_all(M):
                 return some(new_ref(e[1]))
         return none()
     M.add(MAP + r"::<.*>::get::<.*>", map_get)
+    M.add(MAP + r"::<.*>::contains_key::<.*>", lambda c, m, a: sbool(map_get(c, m, a).variant == "Some"))
 
     def map_extend(c, m, a):
         mp = deref(a[0])
